@@ -36,6 +36,10 @@ struct Marker(EngineFail);
 thread_local! {
     static TICKS: Cell<u64> = Cell::new(0);
     static TICK_LIMIT: Cell<u64> = Cell::new(u64::MAX);
+    /// tick number at which the harness plays the timer thread: it calls the public stop_query(),
+    /// which is all the timer callback does (0 = never)
+    static STOP_AT: Cell<u64> = Cell::new(0);
+    static STOP_DONE: Cell<bool> = Cell::new(false);
     static LAST_PANIC: RefCell<Option<(String, String)>> = RefCell::new(None);
     static HOOK_SET: Cell<bool> = Cell::new(false);
     static BINDS: Cell<u64> = Cell::new(0);
@@ -45,6 +49,7 @@ thread_local! {
 fn tick_hook() {
     let t = TICKS.with(|c| { let v = c.get() + 1; c.set(v); v });
     let lim = TICK_LIMIT.with(|c| c.get());
+    if t == STOP_AT.with(|c| c.get()) { suiron::stop_query(); STOP_DONE.with(|c| c.set(true)); }
     if t > lim {
         panic::panic_any(Marker(EngineFail::TickLimit { limit: lim }));
     }
@@ -95,6 +100,11 @@ pub fn install_panic_hook() {
 }
 
 pub fn ticks() -> u64 { TICKS.with(|c| c.get()) }
+/// Arrange for stop_query() to be called on entry to the k-th next_solution of the current guarded
+/// run (k counted from 1 within that run; 0 disarms). "The timer fires at step k", on a schedule
+/// the harness owns.
+pub fn stop_at_tick(k: u64) { STOP_AT.with(|c| c.set(k)); STOP_DONE.with(|c| c.set(false)); }
+pub fn stop_injected() -> bool { STOP_DONE.with(|c| c.get()) }
 pub fn binds() -> u64 { BINDS.with(|c| c.get()) }
 
 /// Run `f` with hooks installed; engine panics / cycles / budget overruns become `Err`.
@@ -109,6 +119,7 @@ pub fn guarded<T>(tick_limit: u64, f: impl FnOnce() -> T) -> Result<T, EngineFai
     IN_GUARD.with(|c| c.set(true));
     let r = panic::catch_unwind(AssertUnwindSafe(f));
     IN_GUARD.with(|c| c.set(false));
+    STOP_AT.with(|c| c.set(0));
     suiron::verif_hooks::verif_set_on_bind(None);
     suiron::verif_hooks::verif_set_tick(None);
     match r {
